@@ -55,6 +55,35 @@ METHOD_TO_NAME = {'features': 'Features', 'leaf_features': 'Leaf features', 'bra
                   'mandatory_features': 'Mandatory features'}
 
 
+def _ev(t, env):
+    if not isinstance(t, tuple):
+        return env[t]
+    op = t[0]
+    a = _ev(t[1], env)
+    if op == 'NOT':
+        return not a
+    b = _ev(t[2], env)
+    return {'AND': a and b, 'OR': a or b, 'XOR': a != b, 'IMPLIES': (not a) or b, 'REQUIRES': (not a) or b,
+            'EQUIVALENCE': a == b, 'EXCLUDES': not (a and b)}[op]
+
+
+def _sem_simple(t, requires) -> bool:
+    """the logical constraint is equivalent to 'l implies r' (requires) / 'not both l and r' (excludes) for some ordered
+    pair of features occurring in it (l = r allowed: 'B => !B' is the degenerate excludes) - complete truth table over its names."""
+    import itertools
+    nm = c18.names_of(t)
+    nm = sorted(set(nm))
+    if len(nm) < 1 or len(nm) > 6:
+        return False
+    rows = [dict(zip(nm, bits)) for bits in itertools.product([False, True], repeat=len(nm))]
+    vals = [_ev(t, env) for env in rows]
+    for l in nm:
+        for r in nm:
+            if all(v == (((not env[l]) or env[r]) if requires else (not (env[l] and env[r]))) for v, env in zip(vals, rows)):
+                return True
+    return False
+
+
 def reference(shape, cards, abstract, trees, names=None) -> dict:
     """name -> expected value; listings are sorted lists of feature names or counts for textual listings."""
     n = R.n_features(shape)
@@ -120,10 +149,11 @@ def reference(shape, cards, abstract, trees, names=None) -> dict:
     ref['Cross-tree constraints'] = len(trees)
     forms = [c18.simple_form(t) for t in trees]
     logical = [all(o in c18.LOGICAL for o in c18.ops_of(t)) for t in trees]
-    ref['Simple constraints'] = sum(1 for f in forms if f is not None)
-    ref['Requires constraints'] = sum(1 for f in forms if f is not None and f[0] == 'requires')
-    ref['Excludes constraints'] = sum(1 for f in forms if f is not None and f[0] == 'excludes')
-    ref['Complex constraints'] = sum(1 for f, lg in zip(forms, logical) if f is None and lg)
+    # simple / requires / excludes / complex: the documented forms must be listed under their kind; whatever else is
+    # listed as requires (excludes) must be *semantically* 'l implies r' ('not both l and r') for two of its features
+    ref['_forms'] = forms
+    ref['_logical'] = logical
+    ref['_sem'] = [(_sem_simple(t, True), _sem_simple(t, False)) if lg else (False, False) for t, lg in zip(trees, logical)]
     cpf = [sum(1 for t in trees if names[i] in c18.names_of(t)) for i in allf]
     ref['Min constraints per feature'] = min(cpf)
     ref['Max constraints per feature'] = max(cpf)
@@ -141,7 +171,7 @@ def check_report(result, shape, cards, abstract, trees, model, subset=None, feat
         return out
     ref = reference(shape, cards, abstract, trees, feat_names)
     if subset is None:
-        missing = [k for k in ref if k not in names] + [k for k in ('Pseudo-complex constraints', 'Strict-complex constraints') if k not in names]
+        missing = [k for k in ref if k not in names and not k.startswith('_')] + [k for k in ('Simple constraints', 'Requires constraints', 'Excludes constraints', 'Complex constraints', 'Pseudo-complex constraints', 'Strict-complex constraints') if k not in names]
         if missing or len(names) != 40:
             out.append(('missing-metric', 'report has %d metrics, missing %r' % (len(names), missing)))
     by = {r['name']: r for r in result}
@@ -166,14 +196,34 @@ def check_report(result, shape, cards, abstract, trees, model, subset=None, feat
                 want = float(round(sizes[nm] / den, prec)) if den else 0.0
                 if r['ratio'] != want:
                     out.append(('ratio', '%s: ratio %r != %d/%d = %r' % (nm, r['ratio'], sizes[nm], den, want)))
+    # constraint kinds (see reference): documented forms listed under their kind, listed ones semantically of that kind
+    if 'Requires constraints' in by and 'Excludes constraints' in by:
+        strs = [str(c) for c in model.ctcs]
+        req_l, exc_l = list(by['Requires constraints']['result']), list(by['Excludes constraints']['result'])
+        for i, t in enumerate(trees):
+            if i >= len(strs):
+                break
+            in_req, in_exc = strs[i] in req_l, strs[i] in exc_l
+            doc = ref['_forms'][i]
+            if doc is not None and doc[0] == 'requires' and not in_req:
+                out.append(('value:Requires constraints', 'the documented requires form %r is not listed under Requires constraints' % (t,)))
+            if doc is not None and doc[0] == 'excludes' and not in_exc:
+                out.append(('value:Excludes constraints', 'the documented excludes form %r is not listed under Excludes constraints' % (t,)))
+            if in_req and not ref['_sem'][i][0]:
+                out.append(('value:Requires constraints', '%r is listed under Requires constraints but is not equivalent to "l implies r" for any two of its features' % (t,)))
+            if in_exc and not ref['_sem'][i][1]:
+                out.append(('value:Excludes constraints', '%r is listed under Excludes constraints but is not equivalent to "not both l and r" for any two of its features' % (t,)))
+        for lab, lst in (('Requires constraints', req_l), ('Excludes constraints', exc_l)):
+            if sum(1 for x in strs if x in set(lst)) != len(lst):
+                out.append(('value:' + lab, '%s lists %d entries for %d matching constraints of the model' % (lab, len(lst), sum(1 for x in strs if x in set(lst)))))
     for nm, want in ref.items():
-        if nm not in by:
+        if nm not in by or nm.startswith('_'):
             continue
         got = by[nm]['result']
         if isinstance(want, list):
             if not isinstance(got, (list, tuple)) or sorted(got) != want:
                 out.append(('value:' + nm, '%s: %r != definition %r' % (nm, got, want)))
-        elif nm in ('Tree relationships', 'Cross-tree constraints', 'Simple constraints', 'Requires constraints', 'Excludes constraints', 'Complex constraints'):
+        elif nm in ('Tree relationships', 'Cross-tree constraints'):
             if len(got) != want:
                 out.append(('value:' + nm, '%s: %d entries != definition %d' % (nm, len(got), want)))
         elif want is None:
@@ -451,6 +501,11 @@ def batches(tier, seed):
     total = len(R.shapes(N))
     step = total // 16 + 1
     b = [('batch_native', [N, lo, lo + step, seed + lo]) for lo in range(0, total, step)] + [('batch_filter_pairs', [seed])]
+    b += [('batch_ctc_metrics', ['depth1', 0, 100000, seed]), ('batch_ctc_metrics', ['mixed', 0, 100000, seed])]
+    b += [('batch_ctc_metrics', ['depth2r', lo, lo + 1352, seed]) for lo in range(0, 4056, 1352)]
+    b += [('batch_ctc_metrics', ['nnf3', lo, lo + 2048, seed]) for lo in range(0, 8192, 2048)]
+    if tier != 'quick':
+        b += [('batch_ctc_metrics', ['depth2', lo, lo + 4000, seed]) for lo in range(0, 60000, 4000)]
     if tier == 'quick':
         b += [('batch_larger', ['random', seed * 3 + i, 40, 6, 16, 0]) for i in range(2)]
         b += [('batch_larger', ['case', seed, 6, 0, 4, 0])]
@@ -494,3 +549,56 @@ def larger_check(shape, cards, m):
 def batch_larger(kind, seed, count, lo_n, hi_n, max_bytes, part=0, parts=1):
     from . import larger
     return larger.batch_models(__name__, 'larger_check', 'metrics-larger', kind, seed, count, lo_n, hi_n, max_bytes, part, parts)
+
+
+# -- the constraint metrics over the constraint-tree families of C18 ------------------------------------------------
+
+CTM_SHAPE = (((), (), ()), ((),))
+CTM_NAMES = ['Root', 'A', 'B', 'C', 'D']
+
+
+def replay_ctc_metrics(trees):
+    """report of a model that carries these constraints: every constraint metric (simple / requires / excludes / complex
+    listings and counts, constraints per feature, features in constraints) equals its definition computed on the trees."""
+    from .common import totuple as _tt
+    trees = [_tt(t) for t in trees]
+    m = R.build(CTM_SHAPE, [(1, 3), (0, 1)], names=CTM_NAMES, ctcs=[R.ctc('k%d' % i, t) for i, t in enumerate(trees)])
+    try:
+        res = FMMetrics().execute(m).get_result()
+    except Exception as exc:
+        return ['metrics raise %s: %s on constraints %r' % (type(exc).__name__, exc, trees)]
+    bad = check_report(res, CTM_SHAPE, [(1, 3), (0, 1)], [False] * 5, trees, m, feat_names=CTM_NAMES)
+    return ['%s [%s] constraints %r' % (msg, key, trees) for key, msg in bad]
+
+
+def batch_ctc_metrics(which, lo, hi, seed):
+    names = ['A', 'B', 'C']
+    if which == 'depth1':
+        trees = [t for t in c18.family_depth1_all_ops(names) if isinstance(t, tuple)]
+    elif which == 'depth2r':
+        trees = c18.family_depth2_restricted(names)
+    elif which == 'depth2':
+        trees = [t for t in c18.all_depth2(names) if isinstance(t, tuple)]
+    elif which == 'mixed':
+        trees = c18.family_mixed_kinds(names)
+    else:
+        trees = c18.family_nnf3(names + ['D'], False)
+    res = {'instances': 0, 'nontrivial': 0, 'violations': [], 'native_runs': 0}
+    rnd = random.Random(seed)
+    # aggregate functions take attribute names: whether those count as "features in the constraint" is not fixed by the property
+    trees = [t for t in trees if not any(o in c18.AGGR for o in c18.ops_of(t))]
+    part = trees[lo:hi]
+    for i, t in enumerate(part):
+        # one constraint alone, and together with a second one of the family (counts, per-feature statistics)
+        cases = [[t]] if i % 3 else [[t], [t, rnd.choice(part)]]
+        for ts in cases:
+            res['instances'] += 1
+            res['native_runs'] += 1
+            res['nontrivial'] += 1
+            bad = replay_ctc_metrics(ts)
+            if bad:
+                res['violations'].append({'label': 'constraint-metrics', 'detail': bad[0][:600], 'replay_func': 'replay_ctc_metrics', 'replay_args': [ts]})
+                if len(res['violations']) >= 4:
+                    return res
+    res['sample'] = {'family': which, 'tree': repr(part[-1]) if part else None}
+    return res
